@@ -77,8 +77,10 @@ VARIABLES blk,     \* id -> [parent, height, txs]  (1 = root; award tx of block 
           utxo, zu, zd, total, irr,
           pool,    \* set of pending transactions
           dev,     \* names of known deviations that changed an outcome so far (history)
+          applied, \* blocks ever applied by this state machine (history, C17)
+          pruned,  \* a pruning walk has happened (history, C17)
           hist
-vars == <<blk, n, ltip, ptr, utxo, zu, zd, total, irr, pool, dev, hist>>
+vars == <<blk, n, ltip, ptr, utxo, zu, zd, total, irr, pool, dev, applied, pruned, hist>>
 
 Parent(b) == blk[b].parent
 Height(b) == blk[b].height
@@ -173,11 +175,11 @@ LHeight == Height(ltip)
 Init ==
   /\ blk = [i \in {1} |-> [parent |-> 0, height |-> 0, txs |-> <<>>]] /\ n = 1 /\ ltip = 1 /\ ptr = 1
   /\ utxo = S0.utxo /\ zu = S0.zu /\ zd = S0.zd /\ total = S0.total /\ irr = 0
-  /\ pool = {} /\ dev = {} /\ hist = <<>>
+  /\ pool = {} /\ dev = {} /\ applied = {1} /\ pruned = FALSE /\ hist = <<>>
 Reset ==
   /\ blk' = [i \in {1} |-> [parent |-> 0, height |-> 0, txs |-> <<>>]] /\ n' = 1 /\ ltip' = 1 /\ ptr' = 1
   /\ utxo' = S0.utxo /\ zu' = S0.zu /\ zd' = S0.zd /\ total' = S0.total /\ irr' = 0
-  /\ pool' = {} /\ dev' = {} /\ hist' = <<>>
+  /\ pool' = {} /\ dev' = {} /\ applied' = {1} /\ pruned' = FALSE /\ hist' = <<>>
 Set(s) == utxo' = s.utxo /\ zu' = s.zu /\ zd' = s.zd /\ total' = s.total
 Log(e) == hist' = Append(hist, e)
 
@@ -187,7 +189,7 @@ Submit(t) ==
   /\ IF t \in pool THEN UNCHANGED <<utxo, zu, zd, total, pool>> /\ Log([op |-> "submit", t |-> t, res |-> "stale"])
      ELSE IF Valid(St, t, LHeight) THEN Set(Apply(St, t)) /\ pool' = pool \cup {t} /\ Log([op |-> "submit", t |-> t, res |-> "admit"])
      ELSE UNCHANGED <<utxo, zu, zd, total, pool>> /\ Log([op |-> "submit", t |-> t, res |-> "stale"])
-  /\ UNCHANGED <<blk, n, ltip, ptr, irr, dev>>
+  /\ UNCHANGED <<blk, n, ltip, ptr, irr, dev, applied, pruned>>
 
 (* ---- MkBlock: a peer's block is formatted and confirmed by the ledger -------------------------- *)
 NoDupSeq(s) == \A i, j \in DOMAIN s : i # j => s[i] # s[j]
@@ -200,7 +202,7 @@ NewBlock(p, seq) ==
   /\ blk' = blk @@ ((n + 1) :> [parent |-> p, height |-> Height(p) + 1, txs |-> seq]) /\ n' = n + 1
   /\ ltip' = IF Height(p) + 1 > LHeight THEN n + 1 ELSE ltip
   /\ Log([op |-> "mkblock", p |-> p, txs |-> seq, res |-> "ok"])
-  /\ UNCHANGED <<ptr, utxo, zu, zd, total, irr, pool, dev>>
+  /\ UNCHANGED <<ptr, utxo, zu, zd, total, irr, pool, dev, applied, pruned>>
 MkBlock(p, seq) == n < MaxBlocks /\ p \in 1..n /\ SeqValidOn(p, seq) /\ NewBlock(p, seq)
 (* a block the ledger stores but whose transactions do not apply on its chain (C05: failed play) *)
 MkBadBlock(p, seq) ==
@@ -230,23 +232,31 @@ Conflicts(b) ==
      \/ \E k \in Keys : /\ BlockVersion(b, k) # NoRd /\ BlockVersion(b, k) \notin pool
                         /\ \/ (TX[u].reads[k] # NoRd /\ TX[u].reads[k] # BlockVersion(b, k))
                            \/ (TX[u].writes[k] # NoRd /\ u # BlockVersion(b, k))}
-Play(b) ==
+(* obsres: the result observed on the real node ("ok" / "fail"; trace validation) or "*" (generation, MC).
+   Known deviation KF_PoolMasksBlockOrder: PlayAndRepost validates the block's transactions against the
+   stored state, which still contains the effects of the node's own pending transactions (those it
+   undoes as conflicting are only undone in the batch). When the node's pool is not empty and a node
+   without that pool would refuse the block, the outcome on the real node is therefore not determined
+   by the design: the deviation accepts whatever was observed and the rest of the behaviour is not judged. *)
+Play(b, obsres) ==
   /\ b \in 2..n
   /\ IF Parent(b) # ptr
-     THEN UNCHANGED <<ptr, utxo, zu, zd, total, irr, pool, dev>> /\ Log([op |-> "play", b |-> b, res |-> "fail"])
+     THEN UNCHANGED <<ptr, utxo, zu, zd, total, irr, pool, dev, applied>> /\ Log([op |-> "play", b |-> b, res |-> "fail"])
      ELSE LET undone == Descendants(Conflicts(b))
               keep == pool \cap TxsOf(b)
               base == UndoSet(St, undone)
-              r  == PlayBlock(base, b, keep, BlockLH(b))                   \* what the code does
+              r  == PlayBlock(base, b, keep, BlockLH(b))
               ri == PlayBlock(base, b, keep, Height(b))
               fresh == PlayBlock(UndoSet(St, pool), b, {}, Height(b)).ok   \* would a node without this pool play it?
-              ok == r.ok /\ (KF_PoolMasksBlockOrder \/ fresh) IN
-          /\ dev' = (DevFrozen(r.ok # ri.ok) \cup IF KF_PoolMasksBlockOrder /\ r.ok /\ ~fresh /\ ri.ok
-                                                  THEN {"KF_PoolMasksBlockOrder"} ELSE {})
-          /\ IF ok THEN /\ Set(r.s) /\ ptr' = b /\ pool' = (pool \ undone) \ keep /\ irr' = NextIrr(irr, Height(b))
+              masked == KF_PoolMasksBlockOrder /\ pool # {} /\ ~fresh
+              ok == IF masked THEN (IF obsres = "*" THEN r.ok ELSE obsres = "ok") ELSE r.ok /\ fresh
+              s2 == IF r.ok THEN r.s ELSE ForceTxs([base EXCEPT !.utxo = @ \cup {AwardU(b)}, !.total = @ + Award], blk[b].txs) IN
+          /\ dev' = (DevFrozen(r.ok # ri.ok) \cup IF masked /\ ok THEN {"KF_PoolMasksBlockOrder"} ELSE {})
+          /\ IF ok THEN /\ Set(s2) /\ ptr' = b /\ pool' = (pool \ undone) \ keep /\ irr' = NextIrr(irr, Height(b))
+                         /\ applied' = applied \cup {b}
                          /\ Log([op |-> "play", b |-> b, res |-> "ok"])
-             ELSE UNCHANGED <<ptr, utxo, zu, zd, total, irr, pool>> /\ Log([op |-> "play", b |-> b, res |-> "fail"])
-  /\ UNCHANGED <<blk, n, ltip>>
+             ELSE UNCHANGED <<ptr, utxo, zu, zd, total, irr, pool, applied>> /\ Log([op |-> "play", b |-> b, res |-> "fail"])
+  /\ UNCHANGED <<blk, n, ltip, pruned>>
 
 (* ---- Mine: the node packs its own pool (in the order seq), confirms and PlayForMiner ----------- *)
 Mine(seq) ==
@@ -255,7 +265,8 @@ Mine(seq) ==
      /\ blk' = blk @@ (b :> [parent |-> ptr, height |-> Height(ptr) + 1, txs |-> seq]) /\ n' = b /\ ltip' = b
      /\ ptr' = b /\ pool' = {}
      /\ utxo' = utxo \cup {AwardU(b)} \cup UNION {FeeU(t) : t \in pool} /\ total' = total + Award
-     /\ UNCHANGED <<zu, zd, dev>>
+     /\ UNCHANGED <<zu, zd, dev, pruned>>
+     /\ applied' = applied \cup {b}
      /\ irr' = NextIrr(irr, Height(ptr) + 1)
      /\ Log([op |-> "mine", txs |-> seq, res |-> "ok"])
 
@@ -305,17 +316,19 @@ Walk(d, prune, P) ==
                ELSE Readmit(r.s, CHOOSE o \in ords : TRUE, {}, LHeight) IN
      /\ Set(ra.s) /\ ptr' = r.at /\ pool' = ra.pool /\ irr' = r.irr
      /\ dev' = DevFrozen(r.ok # ri.ok \/ r.at # ri.at)
+     /\ applied' = IF u.ok THEN applied \cup {x \in Range(PathUp(c, d)) : Height(x) <= Height(r.at)} ELSE applied
+     /\ pruned' = (pruned \/ (prune /\ ptr # c))
      /\ Log([op |-> "walk", d |-> d, prune |-> prune, res |-> IF r.ok THEN "ok" ELSE "fail"])
   /\ UNCHANGED <<blk, n, ltip>>
 
 (* ---- Restart: close and reopen on the same data ------------------------------------------------ *)
-Restart == UNCHANGED <<blk, n, ltip, ptr, utxo, zu, zd, total, irr, pool, dev>> /\ Log([op |-> "restart", res |-> "ok"])
+Restart == UNCHANGED <<blk, n, ltip, ptr, utxo, zu, zd, total, irr, pool, dev, applied, pruned>> /\ Log([op |-> "restart", res |-> "ok"])
 
 Next ==
   /\ Len(hist) < MaxOps
   /\ \/ \E t \in Txs : Submit(t)
      \/ \E p \in 1..n, seq \in TxSeqs : MkBlock(p, seq)
-     \/ \E b \in 2..n : Play(b)
+     \/ \E b \in 2..n : Play(b, "*")
      \/ Mine(TopoOrder(pool))
      \/ \E d \in 1..n : Walk(d, FALSE, {"*"})
      \/ Restart
@@ -357,9 +370,25 @@ NoDoubleSpend == \A t, u \in Admitted : t # u =>
                     /\ TX[t].ins \cap TX[u].ins = {}
                     /\ \A k \in Keys : ~(Supersedes(t, k) /\ Supersedes(u, k) /\ TX[t].reads[k] = TX[u].reads[k])
 PoolValid == \A t \in pool : \A i \in TX[t].ins : ~InUtxo(St, i)   \* inputs of pending txs are consumed
-(* C17 *)
-IrrMonotone == [][irr' >= irr]_vars
+(* C17: with window w > 0 the irreversible height is max(0, max over blocks ever applied of height - w);
+   it never decreases and the pointer's chain keeps every applied block at or below it (pruning aside) *)
+MaxApplied == Max({Height(b) : b \in applied})
+IrrDef == pruned \/ irr = (IF Window = 0 \/ MaxApplied - Window < 0 THEN 0 ELSE MaxApplied - Window)
+IrrMonotone == [][pruned' \/ irr' >= irr]_vars
+IrrKept == [][pruned' \/ \A b \in Anc(ptr) : Height(b) <= irr => b \in Anc(ptr)']_vars
+(* C18: the snapshot reader, written like xModSnapshot.Get: start from the newest version (pending writes
+   included), follow each writer's own input reference backwards, skip unconfirmed writers, stop at the
+   first writer confirmed at a height <= the snapshot block's *)
+TxHeight(v) == Height(CHOOSE b \in Anc(ltip) : v \in TxsOf(b))
+Confirmed(v) == \E b \in Anc(ltip) : v \in TxsOf(b)
+RECURSIVE SnapWalk(_, _, _)
+SnapWalk(v, k, h) == IF v = None THEN None
+                     ELSE IF v \notin pool /\ Confirmed(v) /\ TxHeight(v) <= h THEN v
+                     ELSE SnapWalk(TX[v].reads[k], k, h)
+SnapGet(B, k) == SnapWalk(Cur(St, k), k, Height(B))
+SnapshotOK == ptr \in Anc(ltip) => \A B \in Anc(ptr), k \in Keys : Replay(B).ok => SnapGet(B, k) = Cur(Replay(B).s, k)
 TypeOK == ptr \in 1..n /\ ltip \in 1..n
 
 View == <<blk, n, ltip, ptr, utxo, zu, zd, total, irr, pool, dev>>
+ViewIrr == <<blk, n, ltip, ptr, utxo, zu, zd, total, irr, pool, dev, applied, pruned>>
 =============================================================================
